@@ -125,6 +125,9 @@ impl LibImage {
         let data = pix_bytes(&self.pixels, (self.bw * self.bh * 3) as usize);
         let px = |i: usize| [data[3 * i], data[3 * i + 1], data[3 * i + 2]];
         let rect = |r: RectU, stride: u32, off: usize| -> Vec<[u8; 3]> {
+            if r.w == 0 || r.h == 0 {
+                return vec![];
+            }
             let mut v = Vec::with_capacity((r.w * r.h) as usize);
             for y in 0..r.h {
                 for x in 0..r.w {
@@ -282,6 +285,10 @@ pub enum RefBody {
     /// Grey samples (P2/P5); C13 does not pin how grey maps to RGB, only that both
     /// spellings agree.
     Grey(Vec<u8>),
+    /// The header is inside the grammar and everything after it is raster data, but there
+    /// is less of it than the header announces (a torn or truncated file). No image of
+    /// those dimensions is in the file: an `Ok` would have to invent pixels.
+    Short(&'static str),
     Unsure(&'static str),
 }
 
@@ -326,7 +333,7 @@ fn skip_sep(b: &[u8], mut i: usize) -> Option<usize> {
     (i > start).then_some(i)
 }
 
-/// Decimal field: at most 12 characters, at most 9 significant digits. The flag says
+/// Decimal field: at most 12 characters, a value that fits `u32`. The flag says
 /// whether it carries leading zeros.
 fn field(b: &[u8], i: usize) -> Option<(u32, usize, bool)> {
     let mut j = i;
@@ -340,9 +347,10 @@ fn field(b: &[u8], i: usize) -> Option<(u32, usize, bool)> {
     while k + 1 < j && b[k] == b'0' {
         k += 1;
     }
-    if j - k > 9 {
+    if j - k > 10 {
         return None;
     }
+    // at most ten significant digits, and the value must fit 32 bits
     let v = std::str::from_utf8(&b[k..j]).ok()?.parse::<u32>().ok()?;
     Some((v, j, k > i))
 }
@@ -390,11 +398,12 @@ pub fn ref_pnm(b: &[u8]) -> RefPnm {
             return Unsure("maxval above 255");
         }
         let grey = hd.fmt == 2 || hd.fmt == 5;
-        let n = hd.w as u64 * hd.h as u64 * if grey { 1 } else { 3 };
+        // (w, h < 2^32: the product fits u64 only without the factor 3)
+        let n = (hd.w as u64 * hd.h as u64).saturating_mul(if grey { 1 } else { 3 });
         let raster = &b[hd.raster..];
         let samples: Vec<u8> = if hd.fmt >= 5 {
             if (raster.len() as u64) < n {
-                return Unsure("binary raster shorter than the header says");
+                return Short("binary raster shorter than the header says");
             }
             if raster.len() as u64 > n {
                 soft = true;
@@ -437,7 +446,7 @@ pub fn ref_pnm(b: &[u8]) -> RefPnm {
                 }
             }
             if v.len() as u64 != n {
-                return Unsure("fewer text samples than the header says");
+                return Short("fewer text samples than the header says");
             }
             v
         };
@@ -450,7 +459,7 @@ pub fn ref_pnm(b: &[u8]) -> RefPnm {
             Rgb(samples.chunks_exact(3).map(|c| [c[0], c[1], c[2]]).collect())
         }
     })();
-    let soft = soft && !matches!(body, Unsure(_));
+    let soft = soft && !matches!(body, Unsure(_) | Short(_));
     RefPnm { header: Some(hd), body, soft }
 }
 
